@@ -50,10 +50,20 @@ PLAIN_ONLY = ['a', 'b', 'c', 'x y', 'é', 'a\nb', '', 'lag']
 def build(spec):
     """spec = {'cls', 'nodes': [[id, vtype, meta]…] (construction order), 'edges': [[s, d, type, meta]…]}"""
     g = impl.new_graph(spec['cls'])
-    for n, vt, meta in spec['nodes']:
-        g.add_node(n, variable_type=NodeVariableType(vt), meta=dict(meta) if meta else None)
+    attrs = {n: (vt, meta) for n, vt, meta in spec['nodes']}
+    if not spec.get('implicit'):
+        for n, vt, meta in spec['nodes']:
+            g.add_node(n, variable_type=NodeVariableType(vt), meta=dict(meta) if meta else None)
     for s, d, ty, meta in spec['edges']:
+        if spec.get('implicit'):
+            # end points that do not exist yet arrive as Node objects carrying their attributes (the graph stores its own
+            # node; the caller's object is not part of the graph)
+            s, d = [x if g.node_exists(x) else impl._mk_node(g, x, dict(attrs[x][1]) or None, attrs[x][0]) for x in (s, d)]
         g.add_edge(s, d, edge_type=EdgeType(ty), meta=dict(meta) if meta else None, validate=False)
+    if spec.get('implicit'):
+        for n, vt, meta in spec['nodes']:
+            if not g.node_exists(n):
+                g.add_node(n, variable_type=NodeVariableType(vt), meta=dict(meta) if meta else None)
     return g
 
 
@@ -109,7 +119,10 @@ def rand_spec(rng, cls, n=None, p=0.55, names=None, metas=True):
                 s, d = d, s
             edges.append([s, d, ty, m()])
     rng.shuffle(edges)
-    return {'cls': cls, 'nodes': nodes, 'edges': edges}
+    spec = {'cls': cls, 'nodes': nodes, 'edges': edges}
+    if rng.random() < 0.25:
+        spec['implicit'] = True
+    return spec
 
 
 EDITS = ['identity', 'permute', 'flip_sym', 'flip_asym', 'change_type', 'drop_node', 'add_node', 'drop_edge',
